@@ -1,6 +1,8 @@
 """scenario + recorded trace  ->  Gallina term of type Pool.case"""
 from __future__ import annotations
 
+import json
+
 from vp import coqfmt as q
 from vp.sched import scen as S
 
@@ -147,8 +149,16 @@ def events(scn, trace, nm: Names) -> list[str]:
         return f"(Some {nm.tid([int(pnt), name])})"
 
     crashed = False
+    bc_ids = {"[]": 0}       # canonical broadcast table -> identifier
+    bc_last = 0
+
+    def bc_id(rows):
+        return bc_ids.setdefault(json.dumps(rows, sort_keys=True), len(bc_ids))
     for e in trace:
         k = e["e"]
+        if scn.get("bcast") and k == "restarted":
+            bc_last = bc_id(e["snap"]["bcast"])
+            out.append(f"EBcastLoaded {q.cnat(bc_last)}")
         if k == "crash":
             crashed = True
             continue
@@ -263,10 +273,15 @@ def events(scn, trace, nm: Names) -> list[str]:
             out.append(f"EMerge {nm.tid(e['id'])} {q.clist(q.cnat(f) for f in e['flows'])}")
         elif k in ("tick_end", "started", "restarted"):
             sn = e["snap"]
+            if scn.get("bcast") and bc_id(sn["bcast"]) != bc_last:
+                bc_last = bc_id(sn["bcast"])
+                out.append(f"EBcast {q.cnat(bc_last)}")
             out.append(f"ETickEnd {q.clist(tview(v, nm, icp, start) for v in sn['tasks'])} "
                        f"{q.clist(nm.tid(i) for i in sn['to_hold'])} {q.copt(sn['hold_point'], q.cz)}")
             if sn["stop_point"] is not None:
                 out.append(f"EParams {q.cz(sn['stop_point'])} {opt_tid(sn.get('stop_task'))}")
+            if scn.get("bcast") and k == "tick_end" and isinstance(sn.get("bcast_db"), list):
+                out.append(f"EBcastDb {q.cnat(bc_id(sn['bcast_db']))}")
         elif k == "cmd_hold":
             out.append(f"ECmdHold {q.clist(nm.tid(i) for i in e['ids'])}")
         elif k == "cmd_release":
@@ -280,6 +295,9 @@ def events(scn, trace, nm: Names) -> list[str]:
         elif k == "auto_shutdown_ok":
             out.append("EShutdownAuto")
         elif k == "shutdown":
+            if scn.get("bcast") and "snap" in e and bc_id(e["snap"]["bcast"]) != bc_last:
+                bc_last = bc_id(e["snap"]["bcast"])
+                out.append(f"EBcast {q.cnat(bc_last)}")
             if e["reason"] in sreason:
                 out.append(f"EShutdownReq {sreason[e['reason']]}")
         elif k == "cmd_stop":
